@@ -242,6 +242,7 @@ static void sv_feed(const unsigned char *b, size_t n)
   }
 }
 static long nreads, nwrites;
+static int quitfail;
 ssize_t timeoutread(int t, int fd, char *buf, size_t len)
 {
   size_t k = sv_olen - sv_opos;
@@ -265,6 +266,7 @@ ssize_t timeoutwrite(int t, int fd, const void *buf, size_t len)
   size_t k = len;
   nwrites++;
   if (sv_closed) return len;           /* the kernel still takes it; the next read tells */
+  if (quitfail && len >= 4 && !memcmp(buf, "QUIT", 4)) { lose(np - 1); errno = EPIPE; return -1; }   /* experiment knob, "one" mode only */
   if (sv_next < np && ((sv_mode == 0 && sv_ll == 0) || (sv_mode == 1 && sv_next == DOTP))) {
     struct act *a = getact(sv_next);
     if (sv_mode == 0 || sv_databytes == 0) {
@@ -588,9 +590,9 @@ int main(int argc, char **argv)
     randoms(atoll(argv[2]), strtoull(argv[3], 0, 10));
   } else if (!strcmp(argv[1], "one")) {
     if (!parse_spec(argv[2])) { fprintf(stderr, "bad spec\n"); return 2; }
+    quitfail = getenv("NQV_C09_QUITFAIL") != 0;   /* not a phase of the property's quantifier: observation only */
     run_case();
-    mkshow();
-    fprintf(stderr, "%.*s\n", (int) mkshow(), showbuf);
+    { size_t k, e = mkshow(); for (k = 0; k < e; k++) if (showbuf[k]) putc(showbuf[k], stderr); else fputs("\\0", stderr); putc('\n', stderr); }
     fprintf(stderr, "exited=%d code=%d lost=%d lost_at=%d dot_received=%d maxphase=%d reads=%ld writes=%ld\n", exited, exitcode, lost, lost_at,
             dot_received, maxphase, nreads, nwrites);
     cases++;
